@@ -218,7 +218,14 @@ class _Quadrature(torch.autograd.Function):
                 # the parameters that do not influence the integrand get zero gradient
                 dfdts = tuple(torch.zeros_like(p) if dfdt is None else dfdt
                               for (dfdt, p) in zip(dfdts, tensor_params))
-                return dfdts
+                # a tensor that is supplied in several places (e.g. twice in params, or
+                # in params and as a parameter of the object) gets its (total) derivative once
+                seen_ids = set()
+                dfdts_once = []
+                for (dfdt, p) in zip(dfdts, tensor_params):
+                    dfdts_once.append(torch.zeros_like(dfdt) if id(p) in seen_ids else dfdt)
+                    seen_ids.add(id(p))
+                return tuple(dfdts_once)
 
             # reconstruct grad_params
             # listing tensor_params in the params of quad to make sure it gets
